@@ -195,6 +195,16 @@ def promotable(cx):
         v = write_value(cx, s)
         ok = match(call("~joint::Configuration::contains", fld("Configuration.voters", fld("ProgressTracker.conf")), fld("RaftCore.id")), v) is not None
         cx.check(ok, cx.site_key(s, "write:promotable"), "promotable := conf.voters.contains(self.id) (found %s)" % show(v), s, value=show(v))
+        # ... on EVERY path through the function that runs after a configuration change (a demoted leader included)
+        g = cx.pg(s.fn)
+        rets = [bi for bi in sorted(cx.prog.A(s.fn).reach) if s.fn.body.blocks[bi]["term"]["k"] == "return"]
+        okall = bool(rets) and all(rb == s.block or g.dominated_by_block((rb, "term"), lambda b, s=s: b == s.block) for rb in rets)
+        cx.check(okall, cx.site_key(s, "write:promotable:always"), "promotable is recomputed on every path of %s, before any early return" % fn_name(s.fn), s)
+        # and that function runs after every way the configuration can change
+        cs = callers_of(cx, s.fn)
+        from_apply = any(_call_block_pred(c.fn, "ProgressTracker::apply_conf")(b) for c in cs for b in range(len(c.fn.body.blocks)))
+        from_restore = any(any(sp.endswith("confchange::restore::restore") for sp, x in cx.prog.calls_out[c.fn.key] if x.kind == "call") for c in cs)
+        cx.check(from_apply and from_restore, cx.site_key(s, "write:promotable:callers"), "%s runs after an applied conf change and after a configuration restored from a snapshot" % fn_name(s.fn), s)
     for f, bi, si, st in ctor_sites(cx, "raft::RaftCore"):
         names = st["rv"]["fields"]
         v = cx.prog.A(f).expr_operand(st["rv"]["ops"][names.index("promotable")], (bi, si))
